@@ -285,4 +285,96 @@ theorem capacityBytes_le (bytes : List Nat) : 5 * (capacityBytes bytes).sum ≤ 
     simp only [List.map_cons, List.map_nil, List.sum_cons, List.sum_nil, kb]
     omega
 
+/-! ### the rule of an accepted zone is what its footer denotes -/
+theorem parseRest_rule {st : State} {fo : Option (List Nat)} {z : Zone} (h : parseRest st fo = .ok z) :
+    parseFooterOpt fo st.header.version = .ok z.rule := by
+  unfold parseRest at h
+  obtain ⟨tr, _, h⟩ := bind_eq_ok h
+  obtain ⟨ty, _, h⟩ := bind_eq_ok h
+  obtain ⟨lp, _, h⟩ := bind_eq_ok h
+  split at h
+  · cases h
+  · obtain ⟨r, hr, h⟩ := bind_eq_ok h
+    unfold Zone.new at h
+    obtain ⟨u, _, h⟩ := bind_eq_ok h
+    simp only [P.ok.injEq] at h
+    subst h
+    exact hr
+
+theorem parseBlocks_footer {bytes : List Nat} {st : State} {fo : Option (List Nat)}
+    (h : parseBlocks bytes = .ok (st, fo)) :
+    (versionOf ((bytes.drop 4).take 1) = some .V1 ∧ fo = none)
+      ∨ (versionOf ((bytes.drop 4).take 1) ≠ some .V1 ∧ ∃ c2, fo = some c2) := by
+  unfold parseBlocks at h
+  obtain ⟨⟨st1, c1⟩, hs1, h⟩ := bind_eq_ok h
+  obtain ⟨-, -, hv1, -, -, -⟩ := post_spec (post_state_layout bytes true) hs1
+  dsimp only at hv1 h
+  cases hver : st1.header.version with
+  | V1 =>
+    rw [hver] at h hv1
+    dsimp only at h
+    split at h
+    · simp only [P.ok.injEq, Prod.mk.injEq] at h
+      exact Or.inl ⟨hv1, h.2.symm⟩
+    · cases h
+  | V2 =>
+    rw [hver] at h hv1
+    dsimp only at h
+    obtain ⟨⟨st2, c2⟩, -, h⟩ := bind_eq_ok h
+    simp only [P.ok.injEq, Prod.mk.injEq] at h
+    exact Or.inr ⟨by rw [hv1]; simp, c2, h.2.symm⟩
+  | V3 =>
+    rw [hver] at h hv1
+    dsimp only at h
+    obtain ⟨⟨st2, c2⟩, -, h⟩ := bind_eq_ok h
+    simp only [P.ok.injEq, Prod.mk.injEq] at h
+    exact Or.inr ⟨by rw [hv1]; simp, c2, h.2.symm⟩
+
+/-- what an `Ok` of the footer arm means -/
+theorem parseFooter_ok_inv {f : List Nat} {v : Version} {r : Option Rule} (h : parseFooter f v = .ok r) :
+    validUtf8 f = true ∧ (trimWs f).head? ≠ some 58 ∧ 0 ∉ trimWs f
+      ∧ ((trimWs f = [] ∧ r = none) ∨ ∃ x, r = some x ∧ Denotes (v == .V3) (trimWs f) x) := by
+  unfold parseFooter at h
+  split at h
+  · cases h
+  · rename_i hu
+    split at h
+    · cases h
+    · dsimp only at h
+      split at h
+      · cases h
+      · rename_i hc
+        simp only [Bool.or_eq_true, beq_iff_eq, List.contains_iff_mem, not_or] at hc
+        refine ⟨by simpa using hu, hc.1, hc.2, ?_⟩
+        split at h
+        · rename_i he
+          simp only [P.ok.injEq] at h
+          exact Or.inl ⟨by simpa using he, h.symm⟩
+        · obtain ⟨x, hx, h⟩ := bind_eq_ok h
+          simp only [P.ok.injEq] at h
+          exact Or.inr ⟨x, h.symm, tz_accepts_only' _ _ _ hx⟩
+
+theorem accepted_footer' (bytes : List Nat) (z : Zone) (h : parse bytes = .ok z) :
+    (versionOf ((bytes.drop 4).take 1) = some .V1 → z.rule = none)
+      ∧ (versionOf ((bytes.drop 4).take 1) ≠ some .V1 →
+          validUtf8 (footerOf bytes) = true ∧ (trimWs (footerOf bytes)).head? ≠ some 58
+            ∧ 0 ∉ trimWs (footerOf bytes)
+            ∧ ((trimWs (footerOf bytes) = [] ∧ z.rule = none)
+                ∨ ∃ ext x, z.rule = some x ∧ Denotes ext (trimWs (footerOf bytes)) x)) := by
+  unfold parse at h
+  obtain ⟨⟨st, fo⟩, hb, hrest⟩ := bind_eq_ok h
+  have hr := parseRest_rule hrest
+  rcases parseBlocks_footer hb with ⟨hv, rfl⟩ | ⟨hv, c2, rfl⟩
+  · refine ⟨fun _ => ?_, fun hne => absurd hv hne⟩
+    simp only [parseFooterOpt, P.ok.injEq] at hr
+    exact hr.symm
+  · refine ⟨fun hv1 => absurd hv1 hv, fun _ => ?_⟩
+    have hfo : footerOf bytes = c2 := by unfold footerOf; rw [hb]
+    rw [hfo]
+    obtain ⟨a, b, c, d⟩ := parseFooter_ok_inv (show parseFooter c2 st.header.version = .ok z.rule from hr)
+    refine ⟨a, b, c, ?_⟩
+    rcases d with d | ⟨x, hx, hd⟩
+    · exact Or.inl d
+    · exact Or.inr ⟨_, x, hx, hd⟩
+
 end Chrono.Proofs.TzValid
